@@ -304,7 +304,8 @@ Inductive gop :=
 | GOpen (w subj : N) (units : list (N * N)) (eou : bool)
 | GWrite (w : N) (keys : list N) (n : N)
 | GSet (w : N) (units : list (N * N))
-| GClose (w : N).
+| GClose (w : N)
+| GCommit (w : N).   (* explicit commit; a no-op for the auto-committing writers modelled here *)
 
 Record gstate := GS { g_ctls : list (N * ctl); g_writers : list (N * list N); g_used : list N;
                       g_next : Z; g_store : list (N * list Z) }.
@@ -368,6 +369,7 @@ Definition e2eg_step (s : gstate) (o : gop) : gstate * eobs :=
                                  then fst (gustep s (fst p) (SetAuth (vhandle w (fst p)) (snd p)))
                                  else s) units s, (0, 2, []))
       end
+  | GCommit w => (s, (match gunits s w with None => 5 | Some _ => 0 end, 2, []))
   | GClose w =>
       match gunits s w with
       | None => (s, (5, 2, []))
